@@ -36,20 +36,24 @@ fn p_grid(n: usize, points: usize) -> Vec<f64> {
     (0..points).map(|i| lo + (hi - lo) * i as f64 / (points - 1) as f64).collect()
 }
 
-/// intervals for every outcome k = 0..=n: None = error (counts as "does not cover")
-fn impl_prop_intervals(n: usize, kind: Kind, level: f64, s: &mut Sink) -> Vec<Option<(f64, f64)>> {
-    let c = conf(kind, level);
-    (0..=n)
-        .map(|k| {
+/// intervals for every outcome k = 0..=n, for the three kinds at one level: None = error
+/// (counts as "does not cover"). The three kinds are requested one after the other for each
+/// outcome, so that a result depending on the previous call (a stale cache keyed by the
+/// level only, say) shows up in the coverage of at least one kind.
+fn impl_prop_intervals(n: usize, level: f64, s: &mut Sink) -> [Vec<Option<(f64, f64)>>; 3] {
+    let mut out = [vec![], vec![], vec![]];
+    for k in 0..=n {
+        for (i, kind) in KINDS.iter().enumerate() {
             s.calls += 1;
-            match proportion::ci(c, n, k) {
+            out[i].push(match proportion::ci(conf(*kind, level), n, k) {
                 Ok(Interval::TwoSided(a, b)) => Some((a, b)),
                 Ok(Interval::UpperOneSided(a)) => Some((a, f64::INFINITY)),
                 Ok(Interval::LowerOneSided(b)) => Some((f64::NEG_INFINITY, b)),
                 Err(_) => None,
-            }
-        })
-        .collect()
+            });
+        }
+    }
+    out
 }
 
 fn oracle_prop_intervals(n: usize, kind: Kind, level: f64) -> Vec<Option<(f64, f64)>> {
@@ -157,11 +161,12 @@ fn kidx(k: Kind) -> usize {
 fn judge_prop(n: usize, points: usize, s: &mut Sink) {
     let grid = p_grid(n, points);
     let pmfs: Vec<Vec<f64>> = grid.iter().map(|&p| binom_pmf_vec(n, p)).collect();
-    for kind in KINDS {
-        for (li, &level) in LEVELS.iter().enumerate() {
+    for (li, &level) in LEVELS.iter().enumerate() {
+        let ivs = impl_prop_intervals(n, level, s);
+        for kind in KINDS {
             s.evals += grid.len() as u64; // one exact coverage sum per (n, confidence, p)
-            let iv = impl_prop_intervals(n, kind, level, s);
-            let st = prop_stats(&iv, n, level, &grid, &pmfs);
+            let iv = &ivs[kidx(kind)];
+            let st = prop_stats(iv, n, level, &grid, &pmfs);
             let case = json!({"check":"proportion","n":n,"kind":kind,"level":level,"points":points});
             let slack = PROP_POINT[kidx(kind)][li];
             // sharper, n-specific form of the same criterion: the shortfall of the textbook
@@ -209,17 +214,35 @@ fn judge_quant(n: usize, s: &mut Sink) {
         return;
     }
     let pmfs: Vec<Vec<f64>> = grid.iter().map(|&q| binom_pmf_vec(n, q)).collect();
-    for kind in KINDS {
-        for &level in LEVELS.iter() {
+    // extreme quantiles: q*n (and (1-q)*n) from 1/2 to 9 1/2 in steps of 1/2. The grid is
+    // not filtered by the oracle's admissibility: whatever the implementation answers with
+    // an interval is judged for coverage.
+    let ext: Vec<f64> = (1..=19).flat_map(|j| [j as f64 / (2 * n) as f64, 1.0 - j as f64 / (2 * n) as f64]).filter(|q| *q > 0.0 && *q < 1.0).collect();
+    let ext_pmfs: Vec<Vec<f64>> = ext.iter().map(|&q| binom_pmf_vec(n, q)).collect();
+    for &level in LEVELS.iter() {
+        // the three kinds are requested one after the other for every q (see impl_prop_intervals)
+        let mut cov = [vec![], vec![], vec![]];
+        for (q, pmf) in grid.iter().zip(&pmfs) {
+            for (i, kind) in KINDS.iter().enumerate() {
+                cov[i].push(match impl_ranks(n, *q, *kind, level, s) {
+                    Some(r) => rank_coverage(r, pmf),
+                    None => 0.0,
+                });
+            }
+        }
+        let mut ext_cov = [vec![], vec![], vec![]];
+        for (q, pmf) in ext.iter().zip(&ext_pmfs) {
+            for (i, kind) in KINDS.iter().enumerate() {
+                ext_cov[i].push(impl_ranks(n, *q, *kind, level, s).map(|r| rank_coverage(r, pmf)));
+            }
+        }
+        for kind in KINDS {
             s.evals += grid.len() as u64; // one exact coverage sum per (n, confidence, q)
             let mut devs = vec![];
             let case = json!({"check":"quantile","n":n,"kind":kind,"level":level});
-            for (q, pmf) in grid.iter().zip(&pmfs) {
+            for ((q, pmf), c) in grid.iter().zip(&pmfs).zip(&cov[kidx(kind)]) {
                 let atom = pmf.iter().cloned().fold(0.0, f64::max);
-                let c = match impl_ranks(n, *q, kind, level, s) {
-                    Some(r) => rank_coverage(r, pmf),
-                    None => 0.0,
-                };
+                let c = *c;
                 let d = c - level;
                 devs.push(d);
                 let lim = QUANT_ATOMS[kidx(kind)] * atom;
@@ -241,8 +264,44 @@ fn judge_quant(n: usize, s: &mut Sink) {
                     s.violation(
                         format!("quantile/average-coverage-off-nominal/{}/{}", kind.name(), level),
                         format!("n={n} {} {level}: mean coverage over q is {:.5}, |dev| > {:.5}", kind.name(), level + mean, lim),
-                        case,
+                        case.clone(),
                     );
+                }
+            }
+            // extreme quantiles: where the textbook method has an interval the implementation's
+            // coverage must be the method's (within one lattice atom); where it has none, an
+            // interval that is returned all the same must not cover worse than the method's own
+            // worst point on this extreme grid (+25 % + 0.002)
+            let oracle: Vec<Option<f64>> = ext.iter().zip(&ext_pmfs).map(|(q, pmf)| oracle_ranks(n, *q, kind, level).map(|r| rank_coverage(r, pmf))).collect();
+            let method_worst = oracle.iter().flatten().map(|c| c - level).fold(0.0f64, f64::min);
+            for (((q, pmf), got), want) in ext.iter().zip(&ext_pmfs).zip(&ext_cov[kidx(kind)]).zip(&oracle) {
+                s.evals += 1;
+                let Some(c) = *got else {
+                    s.skipped += 1; // rejected by the implementation: nothing claims coverage
+                    continue;
+                };
+                let atom = pmf.iter().cloned().fold(0.0, f64::max);
+                s.outcome(&("quant-ext", kind, want.is_some()));
+                match want {
+                    Some(w) => {
+                        if !((c - w).abs() <= atom + 1e-12) {
+                            s.violation(
+                                format!("quantile/extreme-q/coverage-differs-from-method/{}/{}", kind.name(), level),
+                                format!("n={n} q={q} {} {level}: coverage {c:.5}, the Wilson-rank method gives {w:.5} (atom {atom:.5})", kind.name()),
+                                case.clone(),
+                            );
+                        }
+                    }
+                    None => {
+                        let floor = 1.25 * method_worst - 0.002;
+                        if !(c - level >= floor) {
+                            s.violation(
+                                format!("quantile/extreme-q/interval-without-coverage/{}/{}", kind.name(), level),
+                                format!("n={n} q={q} {} {level}: an interval is returned whose distribution-free coverage is {c:.5}; the method (which has no interval here) never falls below {:.5} on this n", kind.name(), level + method_worst),
+                                case.clone(),
+                            );
+                        }
+                    }
                 }
             }
         }
